@@ -5,6 +5,7 @@ package main
 
 import (
 	"fmt"
+	"os"
 	"sort"
 	"strconv"
 	"strings"
@@ -349,6 +350,9 @@ func run(c *vh.Ctx) error {
 		}
 	}
 	nScripts := c.N(450, 5000)
+	if os.Getenv("VERIF_C18_LOOP_ONLY") != "" { // debugging aid: only the end-to-end loop tier
+		nScripts = 0
+	}
 	if c.Search {
 		nScripts *= 2
 	}
